@@ -131,3 +131,14 @@ Definition file_weights_matrix (labelled : bool) (ncol : nat) (labels : list nat
     else let n := length lastcol in
          Some (n, map (fun s => map (fun i => weights_entry o (unlabelled_index n) w s i) (seq 0 n)) (seq 0 n)).
 End FileSemantics.
+
+(* ---- the labelled / unlabelled decision of Sensors::load, exactly as the code has it: the file is UNLABELLED as soon as
+   ANY line's first token contains exactly one '.' (looks like a float), labelled otherwise; then the label column, if
+   any, is removed from the column count. ---- *)
+Section LabelRule.
+Context {F : Type} (o : Ops F).
+Definition file_is_labelled (first_token_has_one_dot : list bool) : bool := negb (existsb (fun b => b) first_token_has_one_dot).
+Definition file_matrix_of_tokens (ntokens : nat) (dots : list bool) (first_tokens : list nat) (lastcol : list F) : option (nat * list (list F)) :=
+  let lab := file_is_labelled dots in
+  file_weights_matrix o lab (if lab then ntokens - 1 else ntokens) first_tokens lastcol.
+End LabelRule.
